@@ -21,6 +21,13 @@
 //!       status: up | down <ret|noret> <reason the attached remotes were given, `none` without remotes> @<ms>
 //! The case ends at the first `down`.
 //!
+//! Engine `rt-prune` (first op `pr <D ms>`): the same agent runtime with `prune_remote_delay` = `D` ms (the inactivity
+//! timeout is a day, the lane inputs never block): the write task's `PruneRemotes` queue and `remove_remote_if_idle`.
+//! ops:  attach <r> | link <r> <l> | unlink <r> <l> | rsync <r> <l> (the remote syncs, the agent reads the request and
+//!       answers with an event and `synced`) | ev <l> | adv <k>
+//! out:  ok, then what every remote received since the last op (sorted by remote):
+//!       r<id>=linked<l> | unlinked<l> | ev<l> | synced<l> | closed:<DisconnectionReason>@<ms>
+//!
 //! Engine `dl-inactivity` (first op `dl <T ms>`): the REAL `ValueDownlinkRuntime` (attachment, read and write task
 //! with the two-party coordinator) with `empty_timeout` = `T` ms on the paused clock; the remote lane has answered
 //! `linked` before the script starts; consumers attach without the SYNC option.
@@ -78,9 +85,11 @@ struct Shared {
 struct Holder {
     shared: Arc<Mutex<Shared>>,
     start: Instant,
+    /// input buffer of the two lanes (32 bytes = one request frame; large = never blocks)
+    lane_cap: usize,
 }
 
-const LANE_CAP: [usize; 2] = [32, 32];
+const LANE_CAP: usize = 32;
 
 impl Agent for Holder {
     fn run(
@@ -92,14 +101,15 @@ impl Agent for Holder {
     ) -> BoxFuture<'static, AgentInitResult> {
         let shared = self.shared.clone();
         let start = self.start;
+        let lane_cap = self.lane_cap;
         async move {
             let cfg = |cap: usize| LaneConfig {
                 input_buffer_size: NonZeroUsize::new(cap).unwrap(),
                 output_buffer_size: NonZeroUsize::new(4096).unwrap(),
                 transient: true,
             };
-            let v0 = context.add_lane("v0", WarpLaneKind::Value, cfg(LANE_CAP[0])).await.expect("lane");
-            let m1 = context.add_lane("m1", WarpLaneKind::Map, cfg(LANE_CAP[1])).await.expect("lane");
+            let v0 = context.add_lane("v0", WarpLaneKind::Value, cfg(lane_cap)).await.expect("lane");
+            let m1 = context.add_lane("m1", WarpLaneKind::Map, cfg(lane_cap)).await.expect("lane");
             let (s_tx, mut s_rx) = context.add_lane("zz", WarpLaneKind::Value, cfg(64)).await.expect("lane");
             let http = context.add_http_lane("h").await.expect("http lane");
             {
@@ -460,7 +470,7 @@ async fn rt_case_async(ops: Vec<String>) -> Vec<(String, String)> {
     };
     let start = Instant::now();
     let shared: Arc<Mutex<Shared>> = Arc::new(Mutex::new(Shared::default()));
-    let agent = Holder { shared: shared.clone(), start };
+    let agent = Holder { shared: shared.clone(), start, lane_cap: LANE_CAP };
     let (att_tx, att_rx) = mpsc::channel(16);
     let (http_tx, http_rx) = mpsc::channel(16);
     let (link_tx, mut link_rx) = mpsc::channel(16);
@@ -595,6 +605,323 @@ fn rt_case(t: &mut Trace, ops: &[String]) {
 }
 
 
+
+
+// ------------------------------------------------------------------------------------------------ rt-prune
+
+mod pr {
+    use super::*;
+    use futures::stream::SelectAll;
+    use futures::StreamExt;
+    use swimos_messages::protocol::{Notification, RawResponseMessageDecoder};
+    use tokio_util::codec::FramedRead;
+
+    type News = Arc<Mutex<Vec<(u64, String)>>>;
+
+    struct Remote {
+        id: Uuid,
+        tx: FramedWrite<ByteWriter, RawRequestMessageEncoder>,
+    }
+
+    fn lane_no(name: &str) -> String {
+        match name {
+            "v0" => "0".into(),
+            "m1" => "1".into(),
+            _ => "9".into(),
+        }
+    }
+
+    pub async fn case(ops: Vec<String>) -> Vec<(String, String)> {
+        let first: Vec<&str> = ops.first().map(|s| s.split_whitespace().collect()).unwrap_or_default();
+        let d_ms = match first.as_slice() {
+            ["pr", d] => match d.parse::<u64>() {
+                Ok(d) if (100..=100000).contains(&d) => d,
+                _ => return ops.iter().map(|o| (o.clone(), "bad-op".to_string())).collect(),
+            },
+            _ => return ops.iter().map(|o| (o.clone(), "bad-op".to_string())).collect(),
+        };
+        let start = Instant::now();
+        let shared: Arc<Mutex<Shared>> = Arc::new(Mutex::new(Shared::default()));
+        let agent = Holder { shared: shared.clone(), start, lane_cap: 1 << 14 };
+        let (att_tx, att_rx) = mpsc::channel(16);
+        let (_http_tx, http_rx) = mpsc::channel::<HttpLaneRequest>(16);
+        let (link_tx, mut link_rx) = mpsc::channel(16);
+        let (stop_tx, stop_rx) = trigger::trigger();
+        let long = Duration::from_secs(3600 * 24);
+        let config = CombinedAgentConfig {
+            agent_config: AgentConfig::DEFAULT,
+            runtime_config: AgentRuntimeConfig {
+                inactive_timeout: long,
+                prune_remote_delay: Duration::from_millis(d_ms),
+                shutdown_timeout: Duration::from_secs(600),
+                ..Default::default()
+            },
+        };
+        let task = AgentRouteTask::new(
+            &agent,
+            AgentRouteDescriptor { identity: Uuid::from_u128(1), route: "/node".parse().unwrap(), route_params: HashMap::new() },
+            AgentRouteChannels::new(att_rx, http_rx, link_tx),
+            stop_rx,
+            config,
+            None,
+        );
+        let returned: Arc<Mutex<bool>> = Arc::new(Mutex::new(false));
+        let returned2 = returned.clone();
+        let agent_fut = async move {
+            let _ = task.run_agent().await;
+            *returned2.lock().unwrap() = true;
+            futures::future::pending::<()>().await;
+        };
+        let links = async move {
+            while link_rx.recv().await.is_some() {}
+            futures::future::pending::<()>().await;
+        };
+        // everything the remotes receive, with the time their channel closed
+        let news: News = Arc::new(Mutex::new(vec![]));
+        let news_p = news.clone();
+        type Incoming = (u64, ByteReader, promise::Receiver<DisconnectionReason>);
+        let (reg_tx, mut reg_rx) = mpsc::unbounded_channel::<Incoming>();
+        let pump = async move {
+            let mut all = SelectAll::new();
+            let mut completions: HashMap<u64, promise::Receiver<DisconnectionReason>> = HashMap::new();
+            loop {
+                tokio::select! {
+                    biased;
+                    Some((r, reader, completion)) = reg_rx.recv() => {
+                        completions.insert(r, completion);
+                        let frames = FramedRead::new(reader, RawResponseMessageDecoder).map(move |f| (r, Some(f)));
+                        all.push(frames.chain(futures::stream::once(async move { (r, None) })).boxed());
+                    }
+                    Some((r, item)) = all.next(), if !all.is_empty() => {
+                        let text = match item {
+                            Some(Ok(msg)) => {
+                                let l = lane_no(msg.path.lane.as_str());
+                                match msg.envelope {
+                                    Notification::Linked => format!("linked{}", l),
+                                    Notification::Synced => format!("synced{}", l),
+                                    Notification::Unlinked(_) => format!("unlinked{}", l),
+                                    Notification::Event(_) => format!("ev{}", l),
+                                }
+                            }
+                            Some(Err(_)) => "decode-error".to_string(),
+                            None => {
+                                let at = start.elapsed().as_millis();
+                                let reason = match completions.remove(&r) {
+                                    Some(c) => match soon(c).await {
+                                        Some(Ok(reason)) => reason_name(reason),
+                                        Some(Err(_)) => "dropped".into(),
+                                        None => "pending".into(),
+                                    },
+                                    None => "unknown".into(),
+                                };
+                                format!("closed:{}@{}", reason, at)
+                            }
+                        };
+                        news_p.lock().unwrap().push((r, text));
+                    }
+                    else => futures::future::pending::<()>().await,
+                }
+            }
+        };
+        let driver = async {
+            for _ in 0..200 {
+                tokio::task::yield_now().await;
+                if shared.lock().unwrap().ready {
+                    break;
+                }
+            }
+            settle().await;
+            let lanes = std::mem::take(&mut shared.lock().unwrap().lanes);
+            let _keep_http = shared.lock().unwrap().http.take();
+            if lanes.len() != 2 {
+                return vec![(ops[0].clone(), "init-failed".to_string())];
+            }
+            let mut lane_rx = vec![];
+            let mut lane_tx = vec![];
+            for (i, (tx, rx)) in lanes.into_iter().enumerate() {
+                lane_rx.push(LaneRx(rx));
+                if i == 0 {
+                    lane_tx.push(LaneTx::Value(FramedWrite::new(tx, Default::default())));
+                } else {
+                    lane_tx.push(LaneTx::Map(FramedWrite::new(tx, Default::default())));
+                }
+            }
+            let mut remotes: BTreeMap<u64, Remote> = BTreeMap::new();
+            let mut seq = 0u64;
+            let mut out = vec![(ops[0].clone(), format!("ok init@{}", start.elapsed().as_millis()))];
+            for op in ops.iter().skip(1) {
+                let p: Vec<&str> = op.split_whitespace().collect();
+                let ack: String = match p.as_slice() {
+                    ["attach", r] => {
+                        let r: u64 = r.parse().unwrap();
+                        if remotes.contains_key(&r) {
+                            "skipped".into()
+                        } else {
+                            let id = Uuid::from_u128(0x2000 + r as u128);
+                            let (to_agent_tx, to_agent_rx) = byte_channel(NonZeroUsize::new(1 << 16).unwrap());
+                            let (from_agent_tx, from_agent_rx) = byte_channel(NonZeroUsize::new(1 << 16).unwrap());
+                            let (ctx_tx, ctx_rx) = promise::promise();
+                            let (on_tx, _on_rx) = trigger::trigger();
+                            let req = AgentAttachmentRequest::with_confirmation(id, (from_agent_tx, to_agent_rx), ctx_tx, on_tx);
+                            if att_tx.try_send(req).is_err() {
+                                "agent-gone".into()
+                            } else {
+                                let _ = reg_tx.send((r, from_agent_rx, ctx_rx));
+                                remotes.insert(r, Remote { id, tx: FramedWrite::new(to_agent_tx, Default::default()) });
+                                "ok".into()
+                            }
+                        }
+                    }
+                    [kind @ ("link" | "unlink" | "rsync"), r, l] => {
+                        let r: u64 = r.parse().unwrap();
+                        let l: usize = l.parse().unwrap();
+                        match remotes.get_mut(&r) {
+                            None => "skipped".into(),
+                            Some(_) if l >= 2 => "skipped".into(),
+                            Some(ctx) => {
+                                let lane = if l == 0 { "v0" } else { "m1" };
+                                let path = RelativeAddress::new("/node", lane);
+                                let msg: RequestMessage<&str, Bytes> = match *kind {
+                                    "link" => RequestMessage::link(ctx.id, path),
+                                    "unlink" => RequestMessage::unlink(ctx.id, path),
+                                    _ => RequestMessage::sync(ctx.id, path),
+                                };
+                                let id = ctx.id;
+                                if soon(ctx.tx.send(msg)).await.is_none() {
+                                    "remote-buffer-full".into()
+                                } else if *kind == "rsync" {
+                                    // the agent reads the sync request and answers: one event, then `synced`
+                                    settle().await;
+                                    match lane_rx[l].next().await {
+                                        Some(q) if q.starts_with("sync") => {
+                                            seq += 1;
+                                            let body = format!("{}", seq);
+                                            let sent = match &mut lane_tx[l] {
+                                                LaneTx::Value(tx) => {
+                                                    let a = soon(tx.send(LaneResponse::SyncEvent(id, body.as_bytes()))).await;
+                                                    let b = soon(tx.send(LaneResponse::<&[u8]>::Synced(id))).await;
+                                                    a.is_some() && b.is_some()
+                                                }
+                                                LaneTx::Map(tx) => {
+                                                    let a = soon(tx.send(LaneResponse::SyncEvent(
+                                                        id,
+                                                        MapOperation::Update { key: body.as_bytes(), value: body.as_bytes() },
+                                                    )))
+                                                    .await;
+                                                    let b = soon(tx.send(LaneResponse::<MapOperation<&[u8], &[u8]>>::Synced(id))).await;
+                                                    a.is_some() && b.is_some()
+                                                }
+                                            };
+                                            if sent { "ok".into() } else { "lane-blocked".into() }
+                                        }
+                                        other => format!("no-sync-request:{:?}", other),
+                                    }
+                                } else {
+                                    "ok".into()
+                                }
+                            }
+                        }
+                    }
+                    ["ev", l] => {
+                        let l: usize = l.parse().unwrap();
+                        if l >= 2 {
+                            "bad-op".into()
+                        } else {
+                            seq += 1;
+                            let body = format!("{}", seq);
+                            let sent = match &mut lane_tx[l] {
+                                LaneTx::Value(tx) => soon(tx.send(LaneResponse::StandardEvent(body.as_bytes()))).await.is_some(),
+                                LaneTx::Map(tx) => soon(tx.send(LaneResponse::StandardEvent(MapOperation::Update {
+                                    key: body.as_bytes(),
+                                    value: body.as_bytes(),
+                                })))
+                                .await
+                                .is_some(),
+                            };
+                            if sent { "ok".into() } else { "lane-blocked".into() }
+                        }
+                    }
+                    ["adv", k] => {
+                        let k: u64 = k.parse().unwrap();
+                        tokio::time::sleep(Duration::from_millis(100 * k.min(100))).await;
+                        "ok".into()
+                    }
+                    _ => "bad-op".into(),
+                };
+                settle().await;
+                settle().await;
+                let mut got: Vec<(u64, String)> = std::mem::take(&mut *news.lock().unwrap());
+                got.sort_by_key(|(r, _)| *r); // stable: per remote in order of arrival
+                let mut line = ack;
+                for (r, t) in got {
+                    line.push_str(&format!(" r{}={}", r, t));
+                }
+                if *returned.lock().unwrap() {
+                    line.push_str(" runtime-returned");
+                }
+                out.push((op.clone(), line));
+            }
+            stop_tx.trigger();
+            out
+        };
+        tokio::select! {
+            biased;
+            out = driver => out,
+            _ = agent_fut => vec![],
+            _ = links => vec![],
+            _ = pump => vec![],
+        }
+    }
+
+    pub fn gen(rng: &mut Rng) -> Vec<String> {
+        let mut ops = vec!["pr 701".to_string()];
+        let len = rng.range(5, 30);
+        let mut next = 1u64;
+        let mut attached: Vec<u64> = vec![];
+        for _ in 0..len {
+            let c = rng.below(100);
+            let r = if attached.is_empty() || rng.chance(1, 20) { rng.range(1, 4) } else { *rng.pick(&attached) };
+            let l = rng.below(2);
+            if c < 30 {
+                let k = *rng.pick(&[1u64, 1, 2, 2, 3, 4, 5, 6, 7, 8, 9, 15]);
+                ops.push(format!("adv {}", k));
+            } else if c < 45 {
+                if next <= 5 {
+                    ops.push(format!("attach {}", next));
+                    attached.push(next);
+                    next += 1;
+                }
+            } else if c < 63 {
+                ops.push(format!("link {} {}", r, l));
+            } else if c < 78 {
+                ops.push(format!("unlink {} {}", r, l));
+            } else if c < 90 {
+                ops.push(format!("rsync {} {}", r, l));
+            } else {
+                ops.push(format!("ev {}", l));
+            }
+        }
+        ops.push("adv 8".into());
+        ops
+    }
+}
+
+fn pr_case(t: &mut Trace, ops: &[String]) {
+    let rt = tokio::runtime::Builder::new_current_thread().enable_time().start_paused(true).build().unwrap();
+    let ops_v = ops.to_vec();
+    let res = std::panic::catch_unwind(std::panic::AssertUnwindSafe(|| {
+        rt.block_on(async move { tokio::time::timeout(Duration::from_secs(3600 * 48), pr::case(ops_v)).await })
+    }));
+    match res {
+        Ok(Ok(lines)) => {
+            for (op, o) in lines {
+                t.op(op, o);
+            }
+        }
+        Ok(Err(_)) => t.op("end", "hang"),
+        Err(_) => t.op("end", "panic"),
+    }
+}
 
 // ------------------------------------------------------------------------------------------------ dl-inactivity
 
@@ -957,6 +1284,7 @@ fn run_case(t: &mut Trace, ops: &[String]) {
         Some("rt") => rt_case(t, ops),
         Some("threads") => threads_ops(t, ops),
         Some("dl") => dl_case(t, ops),
+        Some("pr") => pr_case(t, ops),
         _ => {
             for op in ops {
                 t.op(op, "bad-op");
@@ -980,6 +1308,7 @@ fn main() {
                         vec![format!("threads {} {} {}", n, rng.next() % 1_000_000_007, len)]
                     }
                     "dl" => dl::gen(&mut rng),
+                    "pr" => pr::gen(&mut rng),
                     _ => rt_gen(&mut rng),
                 };
                 t.case(format!("{} seed={}", c, seed));
